@@ -761,6 +761,13 @@ func runC08(c *eng.Ctx) {
 		{Regs: []Reg{mkReg("BIkeyedReq_S7", godi.Transient), mkReg("Leaf_K0_a", godi.Singleton)}},
 		{Regs: []Reg{mkReg("BIkeyedReq_S5", godi.Scoped), mkReg("BIkeyedReq_S6", godi.Singleton)}},
 		{Regs: []Reg{mkReg("BIkeyedReq_S5", godi.Transient)}},
+		// a collection that was built successfully, then lost a dependency through Remove / RemoveKeyed, and is built again
+		{RebuildAfter: 2, Regs: []Reg{mkReg("Leaf_K1_a", godi.Scoped), mkReg("PosA_0_2", godi.Scoped), {Remove: true, RmType: "K1", Tail: true}}},
+		{RebuildAfter: 2, Regs: []Reg{mkReg("Leaf_K1_a", godi.Singleton), mkReg("PosB_0_2", godi.Transient), {Remove: true, RmType: "K1", Tail: true}, mkReg("Leaf_S0_a", godi.Scoped)}},
+		{RebuildAfter: 2, Regs: []Reg{mkReg("Leaf_K1_c", godi.Scoped, withName("k")), mkReg("InU_0_2_Keyed", godi.Scoped), {Remove: true, RmType: "K1", RmKey: "k", Tail: true}}},
+		{RebuildAfter: 3, Regs: []Reg{mkReg("Leaf_K1_a", godi.Scoped), mkReg("VoidK1", godi.Scoped), mkReg("Leaf_S0_a", godi.Singleton), {Remove: true, RmType: "K1", Tail: true}}},
+		// ... and the converse: the missing dependency arrives after the first (failed) Build
+		{RebuildAfter: 1, Regs: []Reg{mkReg("PosA_0_2", godi.Scoped), mkReg("Leaf_K1_a", godi.Scoped)}},
 		// acceptance: empty group, absent optional
 		{Regs: []Reg{mkReg("InU_0_6_Group", godi.Singleton), mkReg("InU_1_4_Opt", godi.Singleton)}},
 		// D11: singleton consuming a group whose members have dependencies
